@@ -56,6 +56,17 @@ REQUIRED = {
 MIN_NONTRIVIAL = {'quick': 20, 'thorough': 800}
 
 
+def independent_T(pT):
+    """Transmissivity in m2/d from the parameters alone (closed forms of
+    oracle_hydraulics), so that the reference does not share state with spowtd"""
+    if pT['type'] == 'spline':
+        knots = [float(v) for v in pT['zeta_knots_mm']]
+        K = [float(v) for v in pT['K_knots_km_d']]
+        tmin = float(pT['minimum_transmissivity_m2_d'])
+        return lambda z: oh.transmissivity_closed_form(float(z), knots, K, tmin)
+    return lambda z: float(oh.peatclsm_transmissivity(float(z), pT['Ksmacz0'], pT['alpha'], pT['zeta_max_cm'])) * 86400.0
+
+
 def reference_dt(sy, T, grid, et, kappa, breaks):
     f = lambda z: float(sy(z)) / (-et - kappa * float(T(z)))
     out = [0.0]
@@ -80,6 +91,9 @@ def build_functions(psy, pT):
     T_s = t_mod.create_transmissivity_function(dict(pT))
     T = lambda z: T_s(z) * 86400.0
     return sy, T, pT['zeta_max_cm'] * 10 - 1.0, [float(v) for v in sy.zeta_knots_mm]
+
+
+_PREVIOUS_GRID = {}
 
 
 def make_functions(rng, kind):
@@ -113,6 +127,12 @@ def check_function_case(ctx, rng, kind, combo, fixed=None):
         lo = ceiling - 200.0
     grid, mode = gen_params.level_grid(rng, lo - 0.3 * (hi - lo), hi, n=rng.randint(3, 16), beyond=False)
     grid = np.array([g for g in grid if g < ceiling])
+    prev = _PREVIOUS_GRID.get(kind)
+    if prev is not None and rng.random() < 0.4 and prev.max() < ceiling:
+        # the same levels as the previous parameter set (two sites simulated on one grid in one process)
+        grid = prev.copy()
+        rec.hit('grids-shared-with-the-previous-parameter-set')
+    _PREVIOUS_GRID[kind] = np.sort(np.array(grid, dtype=float))
     if len(grid) < 3:
         return
     if rng.random() < 0.2 and grid[-1] - grid[0] > 8:
@@ -155,7 +175,7 @@ def verify_function_case(ctx, rng, kind, combo, psy, pT, sy, T, breaks, grid, et
         return
     called_grid = grid
     grid = grid.astype(float)
-    ref = reference_dt(sy, T, grid, et, kappa, breaks)
+    ref = reference_dt(sy, independent_T(pT), grid, et, kappa, breaks)
     scale = max(1e-12, float(np.max(np.abs(ref))))
     d = (t - t[0]) - ref
     rec.note_max('max relative difference to reference quadrature', float(np.max(np.abs(d))) / scale)
